@@ -23,6 +23,9 @@ def csrOutF (fmt : String) (C : Csr) (wfIn : List Bool) : Json :=
 
 def csrOut (C : Csr) (wfIn : List Bool) : Json := csrOutF "csr" C wfIn
 
+/-- decidable hypothesis of the line theorems: every line index is in range -/
+def inRange (lines : List Nat) (n : Nat) : Bool := lines.all (fun i => decide (i < n))
+
 def exc (e : Except String Json) : Json :=
   match e with
   | .ok j => j
@@ -50,26 +53,26 @@ def step (j : Json) : R Json := do
     let want ← fStr j "want"
     let lines ← fNats j "lines"
     if fmt != want then pure (err "ValueError") else
-    if fmt == "csc" then pure (csrOutF fmt (zeroColumns (Csc.ofRead A) lines).read [A.wfb]) else
-    pure (csrOutF fmt (zeroLines A lines) [A.wfb])
+    if fmt == "csc" then pure (csrOutF fmt (zeroColumns (Csc.ofRead A) lines).read [A.wfb, inRange lines A.nrows]) else
+    pure (csrOutF fmt (zeroLines A lines) [A.wfb, inRange lines A.nrows])
   | "slice" =>
     let A ← fCsr j "A"
     let fmt ← fStr j "fmt"
     let ind ← fNats j "ind"
     if !isCompressed fmt then pure (err "ValueError") else
-    if fmt == "csc" then pure (csrOutF fmt (sliceCols (Csc.ofRead A) ind).read [A.wfb]) else
-    pure (csrOutF fmt (sliceLines A ind) [A.wfb])
+    if fmt == "csc" then pure (csrOutF fmt (sliceCols (Csc.ofRead A) ind).read [A.wfb, inRange ind A.nrows]) else
+    pure (csrOutF fmt (sliceLines A ind) [A.wfb, inRange ind A.nrows])
   | "slice_mask" =>
     let A ← fCsr j "A"
     let mask ← field j "mask" >>= jList jBool
     let fmt ← fStr j "fmt"
-    if fmt == "csc" then pure (csrOutF fmt (sliceCols (Csc.ofRead A) (whereTrue mask)).read [A.wfb]) else
-    pure (csrOutF fmt (sliceLines A (whereTrue mask)) [A.wfb])
+    if fmt == "csc" then pure (csrOutF fmt (sliceCols (Csc.ofRead A) (whereTrue mask)).read [A.wfb, decide (mask.length = A.nrows)]) else
+    pure (csrOutF fmt (sliceLines A (whereTrue mask)) [A.wfb, decide (mask.length = A.nrows)])
   | "slice_indices" =>
     let A ← fCsr j "A"
     let ind ← fNats j "ind"
     let r := sliceIndices A ind
-    pure (obj [("indices", ofNats r.1), ("array_ind", ofNats r.2), ("wf_in", ofList ofBool [A.wfb])])
+    pure (obj [("indices", ofNats r.1), ("array_ind", ofNats r.2), ("wf_in", ofList ofBool [A.wfb, inRange ind A.nrows])])
   | "slice_indices_mask" =>
     let A ← fCsr j "A"
     let mask ← field j "mask" >>= jList jBool
@@ -91,8 +94,8 @@ def step (j : Json) : R Json := do
     match mergeCheck A B lines with
     | some e => pure (err e)
     | none =>
-      if fmt == "csc" then pure (csrOutF fmt (mergeCols (Csc.ofRead A) (Csc.ofRead B) lines).read [A.wfb, B.wfb]) else
-      pure (csrOutF fmt (mergeLines A B lines) [A.wfb, B.wfb])
+      if fmt == "csc" then pure (csrOutF fmt (mergeCols (Csc.ofRead A) (Csc.ofRead B) lines).read [A.wfb, B.wfb, inRange lines A.nrows]) else
+      pure (csrOutF fmt (mergeLines A B lines) [A.wfb, B.wfb, inRange lines A.nrows])
   | "stack_mat" =>
     let A ← fCsr j "A"
     let B ← fCsr j "B"
@@ -157,6 +160,22 @@ def step (j : Json) : R Json := do
     match optimizedStorage A with
     | .inl R => pure (obj [("fmt", Json.str "csr"), ("dense_std", ofList ofRats R.toDense)])
     | .inr C => pure (obj [("fmt", Json.str "csc"), ("dense_std", ofList ofRats C.toDense)])
+  | "copy" =>
+    let A ← fCsr j "A"
+    let fmt ← fStr j "fmt"
+    pure (csrOutF fmt (copyCsr A) [A.wfb])
+  | "triplets" =>
+    let A ← fCsr j "A"
+    let rem ← fBool j "remove_nz"
+    let t := toTriplets A rem
+    pure (obj [("line", ofNats (t.map (·.1))), ("minor", ofNats (t.map (·.2.1))), ("data", ofRats (t.map (·.2.2))),
+               ("dense", ofList ofRats (tripletDense t A.nrows A.ncols)), ("wf_in", ofList ofBool [A.wfb])])
+  | "slice_zero" =>
+    let A ← fCsr j "A"
+    let fmt ← fStr j "fmt"
+    let ind ← fNats j "ind"
+    let lines ← fNats j "lines"
+    pure (csrOutF fmt (zeroLines (sliceLines A ind) lines) [A.wfb, inRange ind A.nrows, inRange lines ind.length])
   | _ => throw s!"unknown op {op}"
 
 def main : IO Unit := runPure step
